@@ -440,8 +440,13 @@ def run_impl(case):
         sys.stdout, sys.stderr = saved_streams
         gate[0] = None
     trace = [x for ev in log for x in ev]
+    # the dependencies of each task as the real Task objects hold them after the run (dynamic ones included)
+    real_deps = {}
+    for nm, t in tc.tasks.items():
+        if nm in ids:
+            real_deps[ids[nm]] = sorted(set(ids[x] for x in list(t.task_dep) + list(t.setup_tasks) + list(t.calc_dep) if x in ids))
     return dict(trace=trace, events=[list(e) for e in log], rc=rc, wake=wake, rows=rows, names=names,
-                arity=(S.arity if flavour != 'serial' else []))
+                real_deps=real_deps, arity=(S.arity if flavour != 'serial' else []))
 
 
 def coq_case(case, res, idx):
@@ -476,3 +481,28 @@ def all_schedules(case, limit=400):
             for alt in range(1, used[i]):
                 stack.append(pref + [0] * (i - len(pref)) + [alt])
     return out
+
+
+# ------------------------------------------------------------------------------------------
+# independent oracles on an observed event list (no model involved)
+FINAL_CODES = (2, 3, 4, 6)
+
+
+def check_dep_order(events, real_deps, flavour):
+    """C01: a task's actions start only after every task it depends on got its final report.
+    start = [20,t,w] under the parallel runners (the action itself), [5,t] in the serial runner."""
+    finished, bad = set(), []
+    start_code = 5 if flavour == 'serial' else 20
+    running = {}
+    for ev in events:
+        if ev[0] in FINAL_CODES:
+            finished.add(ev[1])
+        if ev[0] == start_code:
+            t = ev[1]
+            missing = [d for d in real_deps.get(t, []) if d not in finished]
+            if missing:
+                bad.append(dict(task=t, unfinished_deps=missing))
+            running[t] = True
+        if ev[0] == 21:
+            running.pop(ev[1], None)
+    return bad
